@@ -346,6 +346,8 @@ def sysOps (op : String) (j : Json) : Except String (Option Json) := do
 /-! ### Args: the two traversals of the dependency resolver -/
 
 partial def parseArg (j : Json) : Except String (Args.Arg Int) := do
+  -- the Python class of a container node: key "cls", default the plain builtin
+  let cls (dflt : String) : String := (j.getObjValAs? String "cls").toOption.getD dflt
   match j.getObjVal? "v" with
   | .ok v => pure (.val (← v.getInt?))
   | .error _ =>
@@ -353,11 +355,11 @@ partial def parseArg (j : Json) : Except String (Args.Arg Int) := do
   | .ok v => pure (.fut (← v.getNat?))
   | .error _ =>
   match j.getObjVal? "l" with
-  | .ok (Json.arr xs) => pure (.list (← xs.toList.mapM parseArg))
+  | .ok (Json.arr xs) => pure (.list (cls "list") (← xs.toList.mapM parseArg))
   | .ok _ => throw "l: expected array"
   | .error _ =>
   match j.getObjVal? "t" with
-  | .ok (Json.arr xs) => pure (.tuple (← xs.toList.mapM parseArg))
+  | .ok (Json.arr xs) => pure (.tuple (cls "tuple") (← xs.toList.mapM parseArg))
   | .ok _ => throw "t: expected array"
   | .error _ =>
   match j.getObjVal? "d" with
@@ -365,15 +367,16 @@ partial def parseArg (j : Json) : Except String (Args.Arg Int) := do
     let kvs ← xs.toList.mapM (fun e => match e with
       | Json.arr #[Json.str k, v] => do pure (k, ← parseArg v)
       | _ => throw "d: expected [key, tree] pairs")
-    pure (.dict kvs)
+    pure (.dict (cls "dict") kvs)
   | _ => throw "unknown argument tree"
 
 partial def jArg : Args.Arg Int → Json
   | .val v => Json.mkObj [("v", toJson v)]
   | .fut j => Json.mkObj [("f", toJson j)]
-  | .list xs => Json.mkObj [("l", Json.arr (xs.map jArg).toArray)]
-  | .tuple xs => Json.mkObj [("t", Json.arr (xs.map jArg).toArray)]
-  | .dict kvs => Json.mkObj [("d", Json.arr (kvs.map (fun (k, a) => Json.arr #[Json.str k, jArg a])).toArray)]
+  | .list c xs => Json.mkObj ([("l", Json.arr (xs.map jArg).toArray)] ++ (if c == "list" then [] else [("cls", Json.str c)]))
+  | .tuple c xs => Json.mkObj ([("t", Json.arr (xs.map jArg).toArray)] ++ (if c == "tuple" then [] else [("cls", Json.str c)]))
+  | .dict c kvs => Json.mkObj ([("d", Json.arr (kvs.map (fun (k, a) => Json.arr #[Json.str k, jArg a])).toArray)]
+      ++ (if c == "dict" then [] else [("cls", Json.str c)]))
 
 def argsOps (op : String) (j : Json) : Except String (Option Json) := do
   match op with
